@@ -93,6 +93,46 @@ def run_ranges(chk, exe, rng, broken):
                        'calibration frequencies are set afterwards' % (lo, hi, hv, len(before), cf[0], cf[-1])))
         lines.append('cal free 0')
         expect.append(None)
+    # 6. correlated parameters: the sigma vector has a frequency grid of its own, whatever the parameter it is correlated with is
+    #    (a predefined or scalar one has no range of its own, a vector one has); in either call order
+    for rep in range(8 if chk.tier == 'quick' else 120):
+        fmin = rng.uniform(1e8, 2e9)
+        fmax = fmin * rng.uniform(1.5, 6)
+        nf = rng.randint(2, 4)
+        cf = [fmin + (fmax - fmin) * i / (nf - 1) for i in range(nf)]
+        name, lo, hi, acc = rng.choice([('cover', cf[0], cf[-1], True), ('wider', cf[0] * 0.5, cf[-1] * 2, True), ('low-short', cf[0] * 1.06, cf[-1], False),
+                                        ('high-short', cf[0], cf[-1] * 0.94, False), ('both-short', cf[0] * 1.2, cf[-1] * 0.8, False)])
+        base_kind = rng.choice(['predefined', 'scalar', 'vector'])
+        late = rng.random() < 0.5
+        L = ['cal create 0', 'cal new_alloc 0 0 0 1 1 %d' % nf]
+        if not late:
+            L.append('cal new_set_frequency_vector 0 %s' % fv(cf))
+        nxt = 3
+        if base_kind == 'predefined':
+            base = rng.choice([0, 1, 2])
+        elif base_kind == 'scalar':
+            L.append('cal make_scalar 0 %s' % vlib.c2h(calsim.rc(rng, 0.4) + 0.3))
+            base, nxt = nxt, nxt + 1
+        else:
+            pf = [cf[0] * 0.4, cf[0], cf[-1], cf[-1] * 2.5]
+            L.append('cal make_vector 0 4 %s %s' % (fv(pf), ' '.join(vlib.c2h(calsim.rc(rng, 0.3)) for _ in pf)))
+            base, nxt = nxt, nxt + 1
+        k = rng.randint(2, 4)
+        sf = [lo + (hi - lo) * i / (k - 1) for i in range(k)]
+        L.append('cal make_correlated 0 %d %d F %s %s' % (base, k, fv(sf), fv([1e-3] * k)))
+        hc = nxt
+        M1 = 'm %d 1 1 %s' % (nf, ' '.join(vlib.c2h(calsim.rc(rng, 0.5)) for _ in range(nf)))
+        lines += L
+        expect += [None] * 2 + [('corr-setup', True, 'set-up step of the correlated-parameter scenario')] * (len(L) - 2)
+        desc = 'correlated parameter (sigma grid %.3e..%.3e, correlated with a %s parameter) in a %.3e..%.3e calibration, %s' % (
+            lo, hi, base_kind, cf[0], cf[-1], 'frequencies set afterwards' if late else 'frequencies set first')
+        lines.append('cal add 0 single_reflect %s %d 1' % (M1, hc))
+        expect.append(('corr-setup', True, 'adding before the frequencies are known') if late else ('correlated-' + name, acc, desc))
+        if late:
+            lines.append('cal new_set_frequency_vector 0 %s' % fv(cf))
+            expect.append(('correlated-late-' + name, acc, desc))
+        lines.append('cal free 0')
+        expect.append(None)
     out, rc, err = vlib.run_lines(exe, lines)
     if rc != 0 or len(out) != len(lines):
         chk.violation('sanitizer-range', 'library crashed in the range-check scenarios: ' + err[-1200:], lines[max(0, len(out) - 8):len(out) + 1])
